@@ -2,6 +2,7 @@ package main
 
 import (
 	"fmt"
+	"go/token"
 	"go/types"
 	"regexp"
 	"strings"
@@ -52,7 +53,14 @@ func builderWrites(f *ssa.Function) []bwrite {
 			if k, ok := constString(cc.Args[1]); ok {
 				w.konst = k
 			} else {
-				w.dyn = []ssa.Value{cc.Args[1]}
+				// "constant" + value (+ value ...): the leading constant is the token, the rest the operands
+				parts := concatParts(cc.Args[1])
+				if k, ok := constString(parts[0]); ok && len(parts) > 1 {
+					w.konst = k
+					w.dyn = parts[1:]
+				} else {
+					w.dyn = []ssa.Value{cc.Args[1]}
+				}
 			}
 			out = append(out, w)
 		case "(*strings.Builder).WriteByte", "(*strings.Builder).WriteRune", "(*strings.Builder).Write":
@@ -142,6 +150,8 @@ func (c *Ctx) sanitised(site ssa.Instruction, v ssa.Value) (bool, string) {
 			if !facts["checkNotifySet(RcptOptions.Notify) == nil"] {
 				return false, "NOTIFY element written without a successful checkNotifySet"
 			}
+		case strings.HasPrefix(l, "strconv.FormatInt("), strings.HasPrefix(l, "strconv.FormatUint("), strings.HasPrefix(l, "strconv.Itoa("):
+			// decimal rendering of an integer
 		case strings.HasPrefix(l, "(time.Time).Format("):
 		case strings.HasPrefix(l, `fmt.Sprintf(" RRVS=%s"`):
 		case strings.HasPrefix(l, "(*strings.Builder).String("):
@@ -236,6 +246,8 @@ func runC15(c *Ctx) {
 		R.Ob(en+"/CR and LF are escaped", "-", bad == "", bad)
 	}
 
+	R.Rule("R-notify-checker-exact", "E4", "checkNotifySet compares each element itself with the four keywords", 4)
+	ruleNotifyCheckerExact(c)
 	R.Rule("R-validate-first", "E2+E3", "validateLine rejects CR and LF; in every method that validates an argument the failure edge reaches neither hello() nor any command nor a dial", 6)
 	if f := c.A.Func("validateLine"); f != nil {
 		ok := false
@@ -425,4 +437,38 @@ func ruleEhloKeys(c *Ctx) {
 		R.Ob(c.siteKey(in, "first reply line is not an extension"), c.P.InstrPos(in), strings.Contains(k, "slice(strings.Split(") && fromSecond, "extension lines are taken from "+k+": the greeting line (server name) is parsed as a keyword")
 	})
 	R.Ob("(*Client).ehlo/extension stores found", c.P.Pos(f.Pos()), n >= 1, fmt.Sprintf("%d stores", n))
+}
+
+// concatParts flattens a left-nested string concatenation a + b + c into its operands.
+func concatParts(v ssa.Value) []ssa.Value {
+	if bo, ok := v.(*ssa.BinOp); ok && bo.Op == token.ADD && isStringLike(bo.Type()) {
+		return append(concatParts(bo.X), concatParts(bo.Y)...)
+	}
+	return []ssa.Value{v}
+}
+
+// ruleNotifyCheckerExact (C15, C11): checkNotifySet is the sanitiser of the NOTIFY elements the client writes raw and
+// of what the server stores: what it compares with the four keywords is the element itself, not a normalised copy
+// (trimmed, re-cased) — otherwise "NEVER\r\n" passes the check and reaches the wire or the backend as it is.
+func ruleNotifyCheckerExact(c *Ctx) {
+	R := c.R
+	f := c.A.Func("checkNotifySet")
+	if f == nil {
+		return
+	}
+	n := 0
+	allInstrs(f, func(in ssa.Instruction) {
+		bo, ok := in.(*ssa.BinOp)
+		if !ok || bo.Op != token.EQL {
+			return
+		}
+		k, isK := constString(bo.Y)
+		if !isK || !(k == "NEVER" || k == "DELAY" || k == "FAILURE" || k == "SUCCESS") {
+			return
+		}
+		n++
+		d := describe(bo.X)
+		R.Ob(c.siteKey(in, "keyword test applies to the element itself ("+k+")"), c.P.InstrPos(in), strings.HasPrefix(d, "param0[") && strings.HasSuffix(d, "]"), "checkNotifySet compares "+d+" with "+k+": a value that only equals a keyword after normalisation passes the check and is then used raw")
+	})
+	R.Ob("checkNotifySet/keyword tests found", c.P.Pos(f.Pos()), n >= 4, fmt.Sprintf("%d keyword comparisons", n))
 }
